@@ -200,7 +200,9 @@ class DefaultOptimizerStep(PlanStep):
         results = self._nested_optimization.run_function(variables)
         if self._nested_optimization.aborted:
             self.plan.abort()
-        if not isinstance(results, FunctionResults):
+        # A nested optimization may end without a result, for instance when all
+        # its evaluations fail or when it is aborted before the first one:
+        if results is not None and not isinstance(results, FunctionResults):
             msg = "Nested optimization must return a FunctionResults object."
             raise TypeError(msg)
         return results, self._nested_optimization.aborted
